@@ -101,6 +101,9 @@ type Rec struct {
 	Pre        *HookObs   `json:"pre,omitempty"`
 	Post       *HookObs   `json:"post,omitempty"`
 	SliceAlias []string   `json:"slice_alias,omitempty"`
+	// TreeAlias: "dstpath|srcpath" for every non-empty destination slice (found by walking the TYPES,
+	// not the plan) whose backing array is also the backing array of a slice of the source operand.
+	TreeAlias []string `json:"tree_alias,omitempty"`
 	SliceObs   int        `json:"slice_obs,omitempty"`
 	NilKept    int        `json:"nil_kept,omitempty"`
 	Judged     bool       `json:"judged"`
@@ -776,6 +779,17 @@ func callOnce(job *Job, reg *Reg, fp *FuncPlan, fn reflect.Value, val string, se
 			o.DstDiff = diffKeys(hs.postDst, after)
 		}
 	}
+	if job.SliceMutate && fp.Judge {
+		if sv, ok := byRole["src"]; ok && dstV.IsValid() {
+			srcPtrs := map[uintptr]string{}
+			walkSlices(sv, "", 0, func(path string, v reflect.Value) { srcPtrs[v.Pointer()] = path })
+			walkSlices(dstV, "", 0, func(path string, v reflect.Value) {
+				if sp, ok := srcPtrs[v.Pointer()]; ok {
+					rec.TreeAlias = append(rec.TreeAlias, path+"|"+sp)
+				}
+			})
+		}
+	}
 	// slice aliasing by mutation (C16): write through every source slice element and re-dump the destination
 	if job.SliceMutate && fp.Judge {
 		for _, e := range exps {
@@ -819,6 +833,33 @@ func callOnce(job *Job, reg *Reg, fp *FuncPlan, fn reflect.Value, val string, se
 		}
 	}
 	return
+}
+
+// walkSlices calls fn for every non-nil, non-empty slice reachable from v through struct members
+// and pointers (not through slice elements, maps or interfaces).
+func walkSlices(v reflect.Value, path string, depth int, fn func(path string, v reflect.Value)) {
+	if !v.IsValid() || depth > 10 {
+		return
+	}
+	switch v.Kind() {
+	case reflect.Ptr:
+		if !v.IsNil() {
+			walkSlices(v.Elem(), path, depth+1, fn)
+		}
+	case reflect.Struct:
+		t := v.Type()
+		for i := 0; i < v.NumField(); i++ {
+			p := t.Field(i).Name
+			if path != "" {
+				p = path + "." + p
+			}
+			walkSlices(access(v.Field(i)), p, depth+1, fn)
+		}
+	case reflect.Slice:
+		if !v.IsNil() && v.Len() > 0 {
+			fn(path, v)
+		}
+	}
 }
 
 func mustLeaf(root reflect.Value, path []string) reflect.Value {
